@@ -709,6 +709,14 @@ def generate(rep, tier):
         des3 = tlc.run("ContactGeom.tla", "ContactGeom_design3.cfg", label="design-cpp-N3", timeout=3000)
         if tlc.require_ok(des3, rep, "design-cpp-N3"):
             rep.add_tlc(des3)
+        # unbounded companion: Apalache / Z3 prove that the closest-point projection is nearest among all rational points of
+        # the segment, for ALL integer segments and query points (negative control refuted); failure = machinery error
+        import subprocess
+        r = subprocess.run([common.SPECS + "/apalache/run_generic.sh", "ClosestPointAll.tla", "Nearest", "NegControl"],
+                           capture_output=True, text=True)
+        rep.coverage["apalache"] = [l for l in r.stdout.splitlines() if l.startswith("APALACHE")]
+        if r.returncode != 0:
+            rep.machinery("apalache check of ClosestPointAll.tla failed: %s" % r.stdout[-400:])
     table, walks = [], []
     runs = [("ContactGeomGen_table.cfg", None, table), ("ContactGeomGen_small.cfg", None, walks),
             ("ContactGeomGen_ls.cfg", None, walks)]
